@@ -311,6 +311,22 @@ func verifMkWorld() *verifWorld {
 	w.pk = &gcpPicker{gb: gb, log: gb.log}
 	w.other = &gcpPicker{gb: gb, log: gb.log}
 	w.fill("")
+	verifLockProbe = func() bool {
+		free := true
+		if gb.mu.TryLock() {
+			gb.mu.Unlock()
+		} else {
+			free = false
+		}
+		for _, p := range []*gcpPicker{w.pk, w.other} {
+			if p.mu.TryLock() {
+				p.mu.Unlock()
+			} else {
+				free = false
+			}
+		}
+		return free
+	}
 	return w
 }
 
